@@ -45,6 +45,8 @@ pub fn generate(s: &mut Session, tier: &str, rng: &mut Rng) {
                     "close=app-early".into(),
                     "close=app reset=app".into(),
                     "close=app reset=target".into(),
+                    "close=app reset=target-answer".into(),
+                    "close=target-idle".into(),
                     "close=app target=refused".into(),
                     "close=app target=unresolvable".into(),
                 ];
@@ -58,7 +60,9 @@ pub fn generate(s: &mut Session, tier: &str, rng: &mut Rng) {
                     let pieces = up.split(',').count();
                     let e = e.replace("cut=K", &format!("cut={}", 1 + rng.below(pieces as u64)));
                     let host = if e.contains("unresolvable") { "localhost" } else { "127.0.0.1" };
-                    let op = format!("e2e.tcp {} kind={} host={} up={} down={} seed={} {}", w, kind, host, up, sizes(rng, max_total), rng.below(1 << 40), e);
+                    // (an answer that is followed by a reset must already have left the target's socket: keep it small)
+                    let down = if e.contains("target-answer") { (1 + rng.below(1000)).to_string() } else { sizes(rng, max_total) };
+                    let op = format!("e2e.tcp {} kind={} host={} up={} down={} seed={} {}", w, kind, host, up, down, rng.below(1 << 40), e);
                     let r = s.run(&op);
                     let label = format!("{}:{}", e.split(' ').last().unwrap_or("").split('=').next().unwrap_or(""), cfg.label());
                     let delivered = ["up", "down", "up-prefix"].iter().all(|k| matches!(field(&r, k), "" | "ok" | "0"));
@@ -68,6 +72,8 @@ pub fn generate(s: &mut Session, tier: &str, rng: &mut Rng) {
                         s.oracle_fail(&format!("lost:{}", label), &format!("{}: what the closing side had sent was not delivered first: `{}`", op, r));
                     } else if !ends {
                         s.oracle_fail(&format!("no-end:{}", label), &format!("{}: the other side did not observe the end of the flow: `{}`", op, r));
+                    } else if !matches!(field(&r, "idle-held"), "" | "0") {
+                        s.oracle_fail(&format!("held:{}", label), &format!("{}: the flow had ended for the application, which stayed idle, but sockets of the flow were still held: `{}`", op, r));
                     } else if field(&r, "prompt") != "1" {
                         s.oracle_fail(&format!("slow-end:{}", label), &format!("{}: the end was not observed promptly: `{}`", op, r));
                     }
